@@ -93,10 +93,23 @@ Qed.
 
 Lemma ends_cr_removelast l : ends_cr l = true -> l = removelast l ++ [13].
 Proof.
-  unfold ends_cr. intros H.
-  destruct l as [|x l'] using rev_ind; [discriminate|].
-  rewrite rev_app_distr in H. cbn in H. apply Z.eqb_eq in H. subst.
-  now rewrite removelast_last.
+  induction l as [|b t IH]; intros H; [discriminate|].
+  destruct t as [|c t'].
+  - cbn [ends_cr] in H. apply Z.eqb_eq in H. subst. reflexivity.
+  - change (ends_cr (c :: t') = true) in H. specialize (IH H).
+    change (removelast (b :: c :: t')) with (b :: removelast (c :: t')).
+    cbn [app]. now rewrite <- IH.
+Qed.
+
+(* the structural definition agrees with "the last byte is CR" *)
+Lemma ends_cr_last l : ends_cr l = match rev l with b :: _ => b =? 13 | [] => false end.
+Proof.
+  induction l as [|b t IH]; [reflexivity|].
+  destruct t as [|c t']; [reflexivity|].
+  change (ends_cr (b :: c :: t')) with (ends_cr (c :: t')). rewrite IH.
+  change (rev (b :: c :: t')) with (rev (c :: t') ++ [b]).
+  destruct (rev (c :: t')) as [|x r] eqn:E; [|reflexivity].
+  exfalso. apply (f_equal (@length Z)) in E. rewrite rev_length in E. discriminate.
 Qed.
 
 (* end of stream on a tail without LF *)
